@@ -88,7 +88,6 @@ type observer struct {
 	p   pinnerT
 	m   *model
 	raw *rawState
-	bothCause map[string]string
 	// traversalMayFail: some block below a recursive root of the *implementation's* index is missing,
 	// so a query that has to walk the DAGs may legitimately return an error.
 	traversalMayFail bool
@@ -97,8 +96,7 @@ type observer struct {
 }
 
 func (o *observer) facts(c string) []string {
-	return []string{"rec", fmt.Sprint(o.m.rec(c)), "dir", fmt.Sprint(o.m.dir(c)), "under_rec_root", fmt.Sprint(len(o.m.via(c)) > 0),
-		"impl_both_modes", fmt.Sprint(o.raw.bothModes()[c]), "both_cause", o.bothCause[c], "impl_direct_record", fmt.Sprint(o.raw.hasRecord(c, "direct"))}
+	return []string{"rec", fmt.Sprint(o.m.rec(c)), "dir", fmt.Sprint(o.m.dir(c)), "under_rec_root", fmt.Sprint(len(o.m.via(c)) > 0)}
 }
 
 func (o *observer) bad(op, mode, c, detail string) {
@@ -302,9 +300,9 @@ func (o *observer) checkList(op string, detailed bool, ch <-chan ipfspinner.Stre
 
 // observe runs every query of the Pinner interface and compares it with the
 // model. It returns the canonical observation vector and the mismatches.
-func observe(f *fixture, p pinnerT, m *model, raw *rawState, bothCause map[string]string) (string, []*eng.Violation) {
+func observe(f *fixture, p pinnerT, m *model, raw *rawState) (string, []*eng.Violation) {
 	ctx := context.Background()
-	o := &observer{f: f, p: p, m: m, raw: raw, bothCause: bothCause}
+	o := &observer{f: f, p: p, m: m, raw: raw}
 	// which DAGs would the implementation have to walk? those of its recursive index
 	for _, rp := range raw.Pins {
 		if rp.Mode == "recursive" && !strings.HasPrefix(rp.Cid, "?") {
@@ -351,7 +349,7 @@ func observe(f *fixture, p pinnerT, m *model, raw *rawState, bothCause map[strin
 	// a batch of one: the per-CID result must not depend on the rest of the batch
 	for _, c := range []string{"M", "L1"} {
 		res, err := p.CheckIfPinnedWithType(ctx, ipfspinner.Any, true, f.cids[c])
-		sub := &observer{f: f, p: p, m: m, raw: raw, bothCause: bothCause, traversalMayFail: o.traversalMayFail}
+		sub := &observer{f: f, p: p, m: m, raw: raw, traversalMayFail: o.traversalMayFail}
 		if err == nil {
 			// complete the answer with what the model says about the CIDs not asked for, so checkBatch can be reused
 			for _, other := range cidNames {
